@@ -144,7 +144,7 @@ Proof.
   cbv beta iota in Em2, Et2. subst tg2. clear E E1 E2. unfold mac_input in Em2.
   apply app_inv_head in Em2. apply app_inv_len in Em2 as [Es <-]; [|now rewrite !be_encode_length].
   assert (sz2 = sz).
-  { apply (f_equal be_decode) in Es. rewrite !be4_roundtrip in Es by assumption. exact Es. }
+  { apply (f_equal be_decode) in Es. rewrite !be4_roundtrip in Es by assumption. now symmetry. }
   subst sz2. unfold mac_input in F1, F2. rewrite F2 in F1. injection F1 as <- <-. auto.
 Qed.
 End Step.
